@@ -160,9 +160,15 @@ def entries():
     for m in ("misclassification_loss", "log_loss"):
         add("MonteCarloEER(%s)" % m, "MonteCarloEER", {"method": m}, model="clf", samplewise=False, cost=2)
     add("ValueOfInformationEER", "ValueOfInformationEER", model="clf", rows=False, cost=2)
-    for m in ("KL_divergence", "vote_entropy", "variation_ratios"):
-        add("QueryByCommittee(%s)" % m, "QueryByCommittee", {"method": m}, model="ensemble", samplewise=True)
-    add("Quire", "Quire", needs_classes=True, model=None, rows=False, arbitrary_idx=False, cost=2)
+    add("QueryByCommittee(KL_divergence)", "QueryByCommittee", {"method": "KL_divergence"}, model="ensemble",
+        samplewise=True)
+    # the vote based methods use the members' hard predictions, whose ties are broken at random per row
+    # position by the classifiers: not a deterministic function of the sample alone
+    for m in ("vote_entropy", "variation_ratios"):
+        add("QueryByCommittee(%s)" % m, "QueryByCommittee", {"method": m}, model="ensemble", samplewise=False)
+    # Quire scores a candidate against ALL labeled and unlabeled samples of (X, y): the score does not
+    # depend on which other samples are offered as candidates (restriction relation of C08)
+    add("Quire", "Quire", needs_classes=True, model=None, rows=False, arbitrary_idx=False, samplewise=True, cost=2)
     add("FourDs", "FourDs", model="fourds", cost=2)
     add("CostEmbeddingAL", "CostEmbeddingAL", needs_classes=True, model=None, samplewise=True, cost=2)
     add("ExpectedModelChangeMaximization", "ExpectedModelChangeMaximization", model="reg", samplewise=True, cost=2)
